@@ -197,16 +197,26 @@ def summ(p):
          'location': p.get('sourceLocation', {})}
     tr = p.get('trace')
     if tr:
-        inputs = {}
+        # inputs = assignments made before control first enters a function body other than the harness
+        # (harness locals, wrapper parameters, objects allocated by is_fresh during the requires phase)
+        inputs = []
+        seen_call = False
         for st in tr:
-            if st.get('stepType') == 'assignment':
-                lhs = st.get('lhs', '')
-                if lhs.startswith('in_') or '$in_' in lhs or re.match(r'^(h_\w+::\d+::)?in_', lhs):
-                    v = st.get('value', {})
-                    inputs[lhs] = v.get('data', v.get('binary', None)) if isinstance(v, dict) else v
-                elif re.match(r'^in_\w+(\[|\.)', lhs):
-                    v = st.get('value', {})
-                    inputs[lhs] = v.get('data', None) if isinstance(v, dict) else v
+            if st.get('stepType') != 'assignment' or st.get('hidden'):
+                continue
+            lhs = st.get('lhs', '')
+            if lhs.startswith('__') or 'write_set' in lhs or '_car' in lhs or 'car_set' in lhs or lhs.startswith('return_value') or 'goto_symex' in lhs or 'tmp_' in lhs:
+                continue
+            fn = (st.get('sourceLocation') or {}).get('function') or ''
+            if fn.startswith('__CPROVER') or fn in ('malloc', 'free'):
+                continue
+            v = st.get('value', {})
+            val = v.get('data', v.get('name')) if isinstance(v, dict) else v
+            if val is None:
+                continue
+            inputs.append([lhs, str(val)])
+            if len(inputs) >= 400:
+                break
         d['inputs'] = inputs
     return d
 
